@@ -5,7 +5,7 @@
    reader's error) strictly decreases a well-founded measure.  Hence every
    fair execution of the client between two environment events is finite. *)
 From Bifrost Require Import Lib.Base SignalClient.Model SignalClient.Proofs SignalClient.ProofsProgress
-  SignalClient.Run.
+  SignalClient.Compose SignalClient.ProofsWait SignalClient.ProofsRelayProgress SignalClient.Run.
 
 Theorem c23_measure_wf : well_founded lt4.
 Proof. exact lt4_wf. Qed.
@@ -24,6 +24,73 @@ Theorem c23_flags_invariant : forall c acts s tr,
   run c c_init acts = (s, tr) -> flags_inv (tk s).
 Proof. intros c acts s tr R. eapply run_flags; [apply flags_init|exact R]. Qed.
 Print Assumptions c23_flags_invariant.
+
+(* No lost wake-ups: in every reachable client state, a goroutine blocked on
+   the wait channel would do nothing if it ran its lock region now (every
+   change of the tracker broadcasts, and a region that ends waiting is
+   idempotent). *)
+Theorem c23_wait_stable : forall c acts s tr,
+  run c c_init acts = (s, tr) -> WInv s.
+Proof. intros c acts s tr R. eapply run_WInv; [apply flags_init|apply WInv_init|exact R]. Qed.
+Print Assumptions c23_wait_stable.
+
+(* Quiescence of the client: when execute runs, the session is open in epoch e
+   and no internal action is enabled, then the loop has nothing to transmit;
+   every pending Send finds the slot occupied by a message that is not
+   cancelled and HAS BEEN TRANSMITTED IN THE CURRENT EPOCH; if that message is
+   its own, the Send knows it (txed, session = e) and only the relay's ack is
+   outstanding (with the Send code before the re-open fix exactly this clause
+   fails: the Send waited for its own message to leave the slot); a pending
+   Recv means nothing is held for the application; nothing received waits for
+   its ack to be written.  So a quiescent client waits only for the relay. *)
+Theorem c23_client_quiescent : forall c acts s tr cn e,
+  run c c_init acts = (s, tr) ->
+  quiescent c s = true -> conn s = Some cn -> t_open (tk s) = Some e ->
+  snd (h_loop (tk s)) = LNone /\
+  (forall i cl, nth_error (sends s) i = Some cl -> s_st cl = SRun ->
+     exists o, t_out (tk s) = Some o /\ t_sent (tk s) = true /\ t_cancel (tk s) = false /\
+               (m_seq o = m_seq (s_msg cl) -> t_acked (tk s) = false /\ s_txed cl = true /\ s_sess cl = Some e)) /\
+  (forall j cl, nth_error (recvs s) j = Some cl -> r_st cl = RRun -> t_recv (tk s) = None) /\
+  (forall r, t_recv (tk s) = Some r -> t_proc (tk s) = false).
+Proof. exact client_quiescent_sends. Qed.
+Print Assumptions c23_client_quiescent.
+
+(* Relay part of the stable-suffix measure (composition, any state): a request
+   handler pass and a write-loop pass strictly decrease
+   (queued requests, mailbox contents, runnable write loops); the write loop
+   never touches a client. *)
+Theorem c23_relay_measure_wf : well_founded lt3.
+Proof. exact lt3_wf. Qed.
+Print Assumptions c23_relay_measure_wf.
+
+Theorem c23_relay_req_decrease : forall x w w' o,
+  wstep w (RReq x) = Some (w', o) -> lt3 (muR w') (muR w).
+Proof. exact relay_req_decreases. Qed.
+Print Assumptions c23_relay_req_decrease.
+
+Theorem c23_relay_loop_decrease : forall x w w' o,
+  wstep w (RLoop x) = Some (w', o) ->
+  lt3 (muR w') (muR w) /\ (forall z, s_cl (gs z w') = s_cl (gs z w)) /\ o = [].
+Proof. exact relay_loop_decreases. Qed.
+Print Assumptions c23_relay_loop_decrease.
+
+(* NOT PROVED (targets):
+   c23_quiescent_composed : forall w H, reach_without_drop w H ->
+     both calls linked -> all four queues empty -> wquiescent w = true ->
+     forall x, (exists running Send of x) ->
+       exists o, t_out (tk (s_cl (gs x w))) = Some o /\
+                 t_recv (tk (s_cl (gs (negb x) w))) = Some o /\ t_proc ... = false /\
+                 no Recv call of the partner is running.
+   Missing: the "where is the message" invariant across client, request queue,
+   mailbox, response queue and partner tracker (with the epoch bounds that make
+   stale epochs vacuous), and the relay-side analogue of c23_wait_stable.
+   c23_stable_decrease_composed : one lexicographic measure for ALL internal
+   actions of the composition.  Proved per component only: c23_client_decrease
+   (client actions, client measure), c23_relay_req/loop_decrease (relay actions,
+   relay measure, clients untouched); the delivery action WDeliver (shrinks a
+   response queue, may change the client measure arbitrarily) and the coupling
+   terms (a client loop pass lengthens a request queue, a relay pass lengthens a
+   response queue) are not combined into one order. *)
 
 (* The re-open-during-send scenario repaired by the fix in Send ("keeps
    ownership of its message across a re-open"): the relay announces Opened 1,
